@@ -33,6 +33,9 @@ def run(ctx, crate):
     rule_arm_buffer_fresh(ctx, crate)
     rule_brace_not_dropped(ctx, crate)
     rule_chars_not_bytes(ctx, crate)
+    # a declared `{key:width}` (any width up to u16::MAX) is rendered with exactly the declared width/alignment/truncate
+    from .c12 import rule_placeholder_fields_forwarded
+    rule_placeholder_fields_forwarded(ctx, crate)
 
 
 def rule_brace_not_dropped(ctx, crate, rule="R-BRACE-NOT-DROPPED"):
